@@ -940,7 +940,7 @@ FLAG_VARIANTS = [
 
 
 def main():
-    args = parse_args(lambda ap: ap.add_argument("--jobs", type=int, default=8, help="worker processes"))
+    args = parse_args(lambda ap: ap.add_argument("--jobs", type=int, default=6, help="worker processes"))
     quiet_logging()
     thorough = args.tier == "thorough"
     random.seed(args.seed)
@@ -1069,11 +1069,11 @@ def main():
         all_dags = list(dags(k))
         for edges in all_dags:
             slo_masks = list(range(1 << k))
-            if k == 4 and not thorough:
-                slo_masks = rng.sample(slo_masks, 4)
+            if k == 4:
+                slo_masks = rng.sample(slo_masks, 8 if thorough else 4)
             for slo_mask in slo_masks:
-                for pv in pvars:
-                    fvs = FLAG_VARIANTS if (k <= 2 or (thorough and k == 3)) else [FLAG_VARIANTS[0], FLAG_VARIANTS[1]] + rng.sample(FLAG_VARIANTS[2:], 3)
+                for pv in (pvars if (thorough or k <= 2) else rng.sample(pvars, 6)):
+                    fvs = FLAG_VARIANTS if (k <= 2 or (thorough and k == 3)) else [FLAG_VARIANTS[0], FLAG_VARIANTS[1]] + rng.sample(FLAG_VARIANTS[2:], 3 if thorough else 2)
                     for fv in fvs:
                         periodic = pv["release_policy"] == "periodic"
                         if periodic:
@@ -1210,7 +1210,7 @@ def main():
         per_family[family] = per_family.get(family, 0) + 1
         R.case((family, key), nontrivial, sample={"family": family, "input": inp} if per_family[family] == 1 else None)
         for vid, what in diffs:
-            R.violation(vid, what, replay_for(family, inp, vid))
+            R.violation(vid, what, replay_for(family, inp, vid) if vid not in R.violations else None)
         for fn, n_ in calls.items():
             R.called(fn, n_)
         for k_, o in obs.items():
@@ -1225,7 +1225,7 @@ def main():
     R.extra["cases_per_family"] = per_family
     R.exhaustive = False  # families J(k<=2 in thorough), RP, RT, FZ and the DAG shapes are exhaustive; field combinations on larger graphs are seeded samples
     R.bound = ("job graphs: all %d DAG shapes on <= 4 nodes (J, TG), <= %d nodes through the file loader (W); per-node optional fields exhaustive for 1 node, %s for 2, seeded samples above; "
-               "all 2^k slo subsets; 5 release policies x small parameters (N<=5, period<=10, concurrency<=4) x override flags; %d flag variants; closed-loop histories: concurrency<=%d, N<=%d, %s completion orders; "
+               "all 2^k slo subsets (8 of 16 sampled per 4-node shape in W); 5 release policies x small parameters (N<=5, period<=10, concurrency<=4) x override flags; %d flag variants; closed-loop histories: concurrency<=%d, N<=%d, %s completion orders; "
                "fuzz: t<=%d us x %d variances x %d bounds; tier=%s seed=%d; %.1fs"
                % (75, wk, "exhaustive" if thorough else "40 sampled combos per shape", len(FLAG_VARIANTS), max_c, max_n, "all/200 sampled" if thorough else "all/30 sampled",
                   60 if thorough else 40, len(fz_var), len(fz_bounds), args.tier, args.seed, time.time() - t_start))
